@@ -413,15 +413,24 @@ class UnitOfWork(object):
         still pending while the versions are made).
         """
         state = sa.inspect(parent_obj)
-        if not state.pending or parent_obj not in self.operations:
+        if parent_obj not in self.operations:
             return {}
         operation = self.operations[self.operations.format_key(parent_obj)]
-        if operation.type != Operation.UPDATE or operation.target is not parent_obj:
+        if (
+            operation.target is not parent_obj or
+            operation.type == Operation.DELETE or
+            # a plain INSERT: what the object did not set is NULL
+            (state.pending and operation.type != Operation.UPDATE)
+        ):
             return {}
         mapper = state.mapper
+        # Attributes that are neither loaded nor expired read None without
+        # the row being consulted. That is what the object looks like for
+        # the rest of the transaction, also in later flushes.
         missing = [
             prop for prop in versioned_column_properties(parent_obj)
-            if prop.key not in state.dict
+            if prop.key not in state.dict and
+            prop.key not in state.expired_attributes
         ]
         if not missing:
             return {}
